@@ -44,8 +44,8 @@ type opIn struct {
 
 type opOut struct {
 	Res int
-	Pos int    // rank of this operation's message among the endpoint's own messages on the wire (-1 = not on the wire)
-	N   int    // observe: number of own messages on the wire
+	Pos int // rank of this operation's message among the endpoint's own messages on the wire (-1 = not on the wire)
+	N   int // observe: number of own messages on the wire
 	Err string
 }
 
@@ -112,7 +112,7 @@ func classifyErr(err error) (int, string) {
 	if err == nil {
 		return resOK, ""
 	}
-	if err == ws.ErrCloseSent {
+	if errors.Is(err, ws.ErrCloseSent) {
 		return resCloseSent, err.Error()
 	}
 	var ne net.Error
